@@ -9,6 +9,7 @@ CONSTANTS
   TopOps <- Ops_ATopAll
   BodyOps <- Ops_ABody
   MethOps <- Ops_AMethAll
+  LogLevels = {}
   RunTimes = {1}
 INVARIANT NoViolation
 VIEW View
